@@ -37,6 +37,7 @@ func vFmtPanics() int
 func vPoolMayDrop(on bool)
 func vAbstractDict() *dict.Parser
 func vYield()
+func vJitter()
 func vQuiesce()
 func vAdvance() bool
 func vNow() int64
